@@ -35,7 +35,10 @@ Hypothesis HK : 1 <= K.
 Variable T : table D.
 Variable S : list dna.
 Hypothesis Hok : tbl_ok D K st T.
-Hypothesis HL : links_ok D st T S.
+Hypothesis HL : links_loose D st T S.
+(* closure (every recorded extension leads to a key) is only needed by [links_exts_closed] and [link_closed] *)
+Hypothesis Hcl : forall ent d b, In ent T -> (b < 4)%N -> e_has_ext (e_exts D ent) (dirb d) b = true ->
+  In (canon_k st (extend (e_key D ent) b d)) (keys D T).
 
 Lemma key_facts ent : In ent T -> length (e_key D ent) = K /\ wf_dna (e_key D ent) /\ e_key D ent <> [] /\ (e_exts D ent < 256)%N.
 Proof.
@@ -50,8 +53,8 @@ Lemma key_fwd ent d b : In ent T -> (b < 4)%N -> e_has_ext (e_exts D ent) (dirb 
   In (cn st (lk (e_key D ent) d b)) S.
 Proof.
   intros Hin Hb Hh. destruct (kpal st (e_key D ent)) eqn:P.
-  - apply (lo_pal _ _ _ _ HL ent d b Hin Hb P). now left.
-  - now apply (lo_np _ _ _ _ HL ent d b Hin Hb P).
+  - apply (ll_pal _ _ _ _ HL ent d b Hin Hb P). now left.
+  - now apply (ll_np _ _ _ _ HL ent d b Hin Hb P).
 Qed.
 
 Theorem links_exts_sym : exts_sym D st T.
@@ -66,8 +69,8 @@ Proof.
   assert (Hc : (c < 4)%N) by (apply (outer_lt4 D K st HK T Hok); auto).
   assert (Wv : wf_dna (lk (e_key D ent) d b)) by (apply lk_wf; auto).
   destruct (kcanon_flip_cases _ _ _ _ Eyf) as [[-> Ey]|(Hs & -> & Ey)]; cbn [cond_flip].
-  - apply (lo_np _ _ _ _ HL yent (dflip d) c Hyin Hc P). rewrite Ey. unfold y, c. now rewrite lk_back.
-  - rewrite dflip_dflip. apply (lo_np _ _ _ _ HL yent d (comp c) Hyin (comp_lt4 c) P). rewrite Ey.
+  - apply (ll_np _ _ _ _ HL yent (dflip d) c Hyin Hc P). rewrite Ey. unfold y, c. now rewrite lk_back.
+  - rewrite dflip_dflip. apply (ll_np _ _ _ _ HL yent d (comp c) Hyin (comp_lt4 c) P). rewrite Ey.
     replace (lk (rc y) d (comp c)) with (rc (lk y (dflip d) c)) by (rewrite rc_lk, dflip_dflip; reflexivity).
     unfold y, c. rewrite lk_back by exact Nk. now rewrite cn_rc_.
 Qed.
@@ -85,13 +88,13 @@ Proof.
   assert (Ey : e_key D yent = y).
   { destruct (kcanon_flip_cases _ _ _ _ Eyf) as [[_ Ey]|(Hs & _ & Ey)]; [exact Ey|].
     apply kpal_iff in P as [_ P]. rewrite Ey in P. rewrite ListFacts.rc_involutive in P by exact Wy. now rewrite Ey. }
-  pose proof (proj2 (lo_pal _ _ _ _ HL yent (dflip d) c Hyin Hc P)) as H. rewrite dflip_dflip in H. apply H.
+  pose proof (proj2 (ll_pal _ _ _ _ HL yent (dflip d) c Hyin Hc P)) as H. rewrite dflip_dflip in H. apply H.
   rewrite Ey. unfold y, c. now rewrite lk_back.
 Qed.
 
 Theorem links_exts_closed : exts_closed D st T.
 Proof.
-  intros ent d b Hin Hb Hh. pose proof (lo_closed _ _ _ _ HL ent d b Hin Hb Hh) as Hc.
+  intros ent d b Hin Hb Hh. pose proof (Hcl ent d b Hin Hb Hh) as Hc.
   assert (E : fst (kcanon_flip st (extend (e_key D ent) b d)) = canon_k st (extend (e_key D ent) b d)).
   { unfold kcanon_flip, canon_k, canon_flip, canon. destruct st; [reflexivity|].
     now destruct (dna_ltb (extend (e_key D ent) b d) (rc (extend (e_key D ent) b d))). }
@@ -120,10 +123,10 @@ Lemma frame_np x e d b : wf_dna x -> (b < 4)%N -> oexts x = Some e -> kpal st x 
 Proof.
   intros Wx Hb Hx P HS.
   destruct (oexts_inv D K st T Hok Hsym Hpal x e Hx) as (ent & Hin & _ & _ & [[-> ->]|(Hne & Hs & Hk & ->)]).
-  - now apply (lo_np _ _ _ _ HL ent d b Hin Hb P).
+  - now apply (ll_np _ _ _ _ HL ent d b Hin Hb P).
   - destruct (key_facts ent Hin) as (_ & _ & _ & He). rewrite has_ext_rc' by auto.
     assert (P' : kpal st (e_key D ent) = false) by (rewrite Hk, kpal_rc; auto).
-    apply (lo_np _ _ _ _ HL ent _ _ Hin (comp_lt4 b) P'). rewrite Hk, <- rc_lk. rewrite cn_rc_; auto. now apply lk_wf.
+    apply (ll_np _ _ _ _ HL ent _ _ Hin (comp_lt4 b) P'). rewrite Hk, <- rc_lk. rewrite cn_rc_; auto. now apply lk_wf.
 Qed.
 Lemma frame_iff x e d b : wf_dna x -> (b < 4)%N -> oexts x = Some e -> kpal st x = false ->
   (e_has_ext e (dirb d) b = true <-> In (cn st (lk x d b)) S).
@@ -134,7 +137,7 @@ Lemma frame_pal x e d b : wf_dna x -> (b < 4)%N -> oexts x = Some e -> kpal st x
 Proof.
   intros Wx Hb Hx P HS.
   destruct (oexts_inv D K st T Hok Hsym Hpal x e Hx) as (ent & Hin & _ & _ & [[-> ->]|(Hne & Hs & Hk & ->)]).
-  - now apply (lo_pal _ _ _ _ HL ent d b Hin Hb P).
+  - now apply (ll_pal _ _ _ _ HL ent d b Hin Hb P).
   - exfalso. apply kpal_iff in P as [_ P]. congruence.
 Qed.
 Lemma oexts_of_key x : wf_dna x -> In (ck x) (keys D T) -> exists e, oexts x = Some e.
@@ -152,9 +155,9 @@ Lemma link_closed x e d b : wf_dna x -> length x = K -> (b < 4)%N -> oexts x = S
 Proof.
   intros Wx Lx Hb Hx Hh. assert (Nx : x <> []) by (intro E; rewrite E in Lx; cbn in Lx; lia).
   destruct (oexts_inv D K st T Hok Hsym Hpal x e Hx) as (ent & Hin & _ & _ & [[-> ->]|(Hne & Hs & Hk & ->)]).
-  - now apply (lo_closed _ _ _ _ HL ent d b).
+  - now apply (Hcl ent d b).
   - destruct (key_facts ent Hin) as (_ & _ & _ & He). rewrite has_ext_rc' in Hh by auto.
-    pose proof (lo_closed _ _ _ _ HL ent _ _ Hin (comp_lt4 b) Hh) as H. rewrite Hk, <- rc_extend in H by exact Nx.
+    pose proof (Hcl ent _ _ Hin (comp_lt4 b) Hh) as H. rewrite Hk, <- rc_extend in H by exact Nx.
     rewrite (ck_rc D K st T Hok Hsym Hpal) in H; auto. now apply extend_wf.
 Qed.
 
